@@ -59,4 +59,6 @@ import LexVerif.Props.C01Number
 import LexVerif.Props.C01Trunc
 import LexVerif.Props.C01Compact
 import LexVerif.Props.C01Final
+import LexVerif.Props.C05Bytes
+import LexVerif.Props.C05Final
 import LexVerif.Props.C12Sep
